@@ -265,11 +265,37 @@ IPSetBad(U, dl, desc, set) ==
                                 : k \in match }
             IN IF set.members # want THEN "named-port-members-differ" ELSE ""
 
+\* The rule itself must select what its selectors say (the statement is about "the IP set emitted for a rule selector"):
+\* for every probe address x, "x belongs to an item that matches the positive selector and not the negated one"
+\* (or, without a positive selector, "x belongs to no item matching the negated one") must equal what the emitted
+\* rule says through the IP sets it references.  Probes = every address that starts a net of some item + an outsider.
+\* Directions that involve named ports are judged through the named-port sets above only.
+Probes(U, dl) == { Addr(FirstAddr(nt)) : nt \in UNION { ToSet(Val(U, dl, k).nets) : k \in Items(U, dl) } } \cup { Addr(<<203, 0, 113, 7>>) }
+Holders(U, dl, x) == { k \in Items(U, dl) : \E nt \in ToSet(Val(U, dl, k).nets) : Covers(nt, x) }
+InSet(d, id, x) == id \in DOMAIN d.ipsets /\ \E m \in d.ipsets[id].members : m.proto = "" /\ Covers(NetOf(m), x)
+DirSays(U, dl, hasPos, pos, hasNeg, neg, x) ==
+    IF hasPos THEN \E k \in Holders(U, dl, x) : Eval(pos, Eff(U, dl, k), U.ct) /\ (hasNeg => ~Eval(neg, Eff(U, dl, k), U.ct))
+    ELSE ~(hasNeg /\ \E k \in Holders(U, dl, x) : Eval(neg, Eff(U, dl, k), U.ct))
+RuleSays(d, posIds, negIds, x) == (\A i \in DOMAIN posIds : InSet(d, posIds[i], x)) /\ (\A i \in DOMAIN negIds : ~InSet(d, negIds[i], x))
+RuleSelBad(U, dl, d, c, e) ==     \* c = catalogue rule skeleton, e = emitted rule
+    LET srcJudged == c.srcnp = <<>> /\ c.nsrcnp = <<>> /\ e.srcnp = <<>> /\ e.nsrcnp = <<>>
+        dstJudged == c.dstnp = <<>> /\ c.ndstnp = <<>> /\ e.dstnp = <<>> /\ e.ndstnp = <<>> /\ e.dstipport = <<>>
+    IN \E x \in Probes(U, dl) :
+          \/ srcJudged /\ DirSays(U, dl, c.has_src, c.src, c.has_nsrc, c.nsrc, x) # RuleSays(d, e.src, e.nsrc, x)
+          \/ dstJudged /\ DirSays(U, dl, c.has_dst, c.dst, c.has_ndst, c.ndst, x) # RuleSays(d, e.dst, e.ndst, x)
+RulesSelBad(U, dl, d, cat, em) ==   \* cat, em = [inr, outr] of the catalogue value and of the emitted object
+    \/ Len(cat.inr) = Len(em.inr) /\ \E i \in DOMAIN cat.inr : RuleSelBad(U, dl, d, cat.inr[i], em.inr[i])
+    \/ Len(cat.outr) = Len(em.outr) /\ \E i \in DOMAIN cat.outr : RuleSelBad(U, dl, d, cat.outr[i], em.outr[i])
+
 C04Bad(U, dl, d) ==
     LET used == UNION ({ RulesRefs(d.policies[p]) : p \in DOMAIN d.policies } \cup { RulesRefs(d.profiles[p]) : p \in DOMAIN d.profiles })
         bad == { r \in { IPSetBad(U, dl, U.ipsets[s], d.ipsets[s]) : s \in (DOMAIN d.ipsets) \cap (DOMAIN U.ipsets) } : r # "" }
     IN  IF DOMAIN d.ipsets # used THEN "ipset-not-referenced-or-missing"
         ELSE IF bad # {} THEN First(bad)
+        ELSE IF \E p \in Live(U, dl, "policy") : Val(U, dl, p).id \in DOMAIN d.policies
+                     /\ RulesSelBad(U, dl, d, Val(U, dl, p), d.policies[Val(U, dl, p).id]) THEN "policy-rule-selects-wrong-addresses"
+        ELSE IF \E p \in Live(U, dl, "profrules") : Val(U, dl, p).name \in DOMAIN d.profiles
+                     /\ RulesSelBad(U, dl, d, Val(U, dl, p), d.profiles[Val(U, dl, p).name]) THEN "profile-rule-selects-wrong-addresses"
         ELSE ""
 
 \* ------------------------------------------------------------------------------------------------
